@@ -6,7 +6,8 @@ already executed against the real function when the violation was reported, and 
 
 For C20 (panic / hang) a failed obligation is followed by a small-scope WITNESS SEARCH against the real code: the public entry points of the
 module the obligation lives in are called on every small graph (replays/search/verif_search.rs, a test built in a scratch copy of /repo with
-overflow checks on, each call under catch_unwind and a watchdog). A witness is stored in the replay file and replayed by `--replay`; without
+overflow checks on, each call under catch_unwind and a watchdog). For C09, C10 and C12 the same harness compares the results with an oracle
+computed from the description of the graph (counts and degrees from the edge list, reachability by Floyd-Warshall, the definition of a partition). A witness is stored in the replay file and replayed by `--replay`; without
 one the VIOLATION line ends with no-failing-input-found. The search never decides a verdict and never runs on a tree whose obligations hold."""
 import json
 import os
@@ -32,8 +33,17 @@ GROUPS = [
 ]
 
 
-def _group_of(where):
-    for prefix, g in GROUPS:
+# properties whose statement has an executable oracle on small graphs: the same harness compares results with the definition
+ORACLE_GROUPS = {
+    'C10': [('src/algorithms/components/', 'components_oracle'), ('src/graph/query.rs', 'components_oracle')],
+    'C09': [('src/graph/', 'counts_oracle')],
+    'C12': [('src/algorithms/community/partitions.rs', 'partition_oracle')],
+}
+
+
+def _group_of(where, prop='C20'):
+    table = GROUPS if prop == 'C20' else ORACLE_GROUPS.get(prop, [])
+    for prefix, g in table:
         if where and where.startswith(prefix):
             return g
     return None
@@ -63,11 +73,11 @@ def _run_group(group, work):
 
 def search(prop, failed, work):
     """failed: the failed obligation objects (id, fn, where). Returns a failing-input record or None."""
-    if prop != 'C20' or os.environ.get('VERIF_SEARCH', '1') == '0':
+    if (prop != 'C20' and prop not in ORACLE_GROUPS) or os.environ.get('VERIF_SEARCH', '1') == '0':
         return None
     groups = []
     for o in failed:
-        g = _group_of(getattr(o, 'where', '') or '')
+        g = _group_of(getattr(o, 'where', '') or '', prop)
         if g and g not in groups:
             groups.append(g)
     for g in groups[:3]:
